@@ -17,7 +17,7 @@ TECHNIQUE = (
     "must be rejected by the table merger"
 )
 RULE = (
-    "case = 1-8 inputs of 1-25 rows (unique id, score from a small dyadic value set incl. 0.0 and negatives => ties, "
+    "case = 1-8 inputs of 1-25 rows (unique id, score from a small dyadic value set incl. 0.0, negatives and optionally +-inf => ties, optional integer and text columns with missing values, "
     "payload; header names plain or not Python identifiers: 'mokapot score', 'Spec Id', 'scan-nr', 'class', '_rank'), sorted as declared, tsv/parquet, reader/merge chunk size 1..n+1, implementation in {utils.merge_sort, "
     "MergedTabularDataReader.read / chunked / row iterator (DataFrame, Dicts, Records), merge_readers}, descending "
     "(ascending too for the table merger); negative variant = one adjacent inversion in one input. Non-trivial: >=2 "
@@ -28,6 +28,7 @@ ASSUMPTIONS = [
     "every input has at least one row (the statement quantifies over inputs of 1..N rows)",
 ]
 VALUES = [-4.0, -2.0, -1.0, -0.5, -0.125, 0.0, 0.125, 0.25, 0.5, 1.0, 1.5, 2.0, 3.0, 8.0]
+INF = float("inf")
 # column layouts: header names need not be Python identifiers (PIN-style "Spec Id", dashes, keywords, leading "_")
 NAMES = {
     "plain": ["id", "score", "payload", "num"],
@@ -48,6 +49,10 @@ def _case(draw, tier):
     k = draw(st.integers(1, 8))
     nvals = draw(st.integers(1, len(VALUES)))
     vals = draw(st.lists(st.sampled_from(VALUES), min_size=nvals, max_size=nvals, unique=True))
+    # infinite scores are legal floats (a PSM nothing competes with / a failed score): one case in 6 has them
+    infs = draw(st.sampled_from([0, 0, 0, 0, 0, 1]))
+    if infs:
+        vals = vals + draw(st.sampled_from([["-inf"], ["inf"], ["-inf", "inf"]]))
     inputs = []
     for _ in range(k):
         m = draw(st.integers(1, 25))
@@ -68,6 +73,7 @@ def _case(draw, tier):
         "neg_pos": draw(st.integers(0, 24)),
         "subset": draw(st.booleans()),
         "names": draw(st.sampled_from(["plain", "plain", "odd", "kw"])),
+        "nulls": draw(st.sampled_from([False, False, True])),
     }
 
 
@@ -81,7 +87,10 @@ def check(case):
     from mokapot import utils as mutils
 
     desc = case["desc"]
-    inputs = [sorted(x, reverse=desc) for x in case["inputs"]]
+    inputs = [sorted((float(v) for v in x), reverse=desc) for x in case["inputs"]]
+    # columns with gaps only for Parquet inputs (explicit schema): a text reader infers another type for an input whose
+    # column happens to be complete / entirely empty, and the table merger rejects inputs of differing types
+    nulls = bool(case.get("nulls")) and case["fmt"] == "parquet"
     negative = case["negative"]
     if negative:
         i = case["neg_input"]
@@ -94,8 +103,10 @@ def check(case):
             p = pos[case["neg_pos"] % len(pos)]
             row[p], row[p + 1] = row[p + 1], row[p]
     ext = ".parquet" if case["fmt"] == "parquet" else ".tab"
-    cols = NAMES[case.get("names", "plain")]
+    cols = list(NAMES[case.get("names", "plain")])
     c_id, c_score, c_pay, c_num = cols
+    if case.get("nulls") and case["fmt"] == "parquet":
+        cols = cols + ["charge", "mod"]
     all_rows = {}
     with scratch_dir() as tmp:
         paths = []
@@ -106,10 +117,20 @@ def check(case):
                 c_pay: [f"p{fi}x{j}" for j in range(len(scores))],
                 c_num: [float(fi) + j / 64.0 for j in range(len(scores))],
             })
-            for r in df.to_dict("records"):
+            if nulls:
+                # optional columns with gaps: an integer column (charge) and a text column (modification)
+                df["charge"] = pd.array([None if (fi + j) % 3 == 0 else 2 + (fi + j) % 3 for j in range(len(scores))], dtype="Int64")
+                df["mod"] = pd.array([None if (fi + 2 * j) % 4 == 0 else f"m{fi}_{j}" for j in range(len(scores))], dtype="string")
+            for r in df.astype(object).where(df.notna(), None).to_dict("records"):
                 all_rows[r[c_id]] = r
             p = tmp / f"in{fi}{ext}"
-            if ext == ".parquet":
+            if ext == ".parquet" and nulls and (fi + len(scores)) % 2 == 0:
+                # a file written by another tool: plain Arrow schema (int64 / string with nulls), no pandas metadata
+                import pyarrow as pa
+                import pyarrow.parquet as pq
+
+                pq.write_table(pa.Table.from_pandas(df, preserve_index=False).replace_schema_metadata(None), p)
+            elif ext == ".parquet":
                 df.to_parquet(p, index=False)
             else:
                 df.to_csv(p, sep="\t", index=False)
@@ -180,7 +201,18 @@ def check(case):
         require(list(r.keys()) == want if impl != "merge_sort" else set(r) == set(cols), "columns", f"{impl}: row keys {list(r.keys())}")
         for c in want:
             a, b = r[c], src[c]
-            ok = (float(a) == float(b)) if c in (c_score, c_num) else (str(a) == str(b))
+            if c in ("charge", "mod"):
+                # missing stays missing, a present value stays that value; the row-dict merge of Parquet files hands the
+                # stored values through as they are (None, int), the other routes go through a DataFrame (NaN, float)
+                a_missing = a is None or (isinstance(a, float) and a != a) or a is pd.NA
+                if b is None:
+                    ok = a_missing
+                else:
+                    ok = (not a_missing) and ((float(a) == float(b)) if c == "charge" else (str(a) == str(b)))
+                if ok and impl == "merge_sort" and case["fmt"] == "parquet":
+                    ok = (a is None) if b is None else (type(a) is type(b) and a == b)
+            else:
+                ok = (float(a) == float(b)) if c in (c_score, c_num) else (str(a) == str(b))
             require(ok, "row-modified", f"{impl}: {r[c_id]} column {c}: {a!r} != {b!r}")
     sc = [float(r[c_score]) for r in out]
     mono = all(a >= b for a, b in zip(sc, sc[1:])) if desc else all(a <= b for a, b in zip(sc, sc[1:]))
@@ -193,4 +225,8 @@ def check(case):
         classes.append("has-zero")
     if any(len(x) == 1 for x in inputs):
         classes.append("single-row-input")
+    if any(v in (INF, -INF) for x in inputs for v in x):
+        classes.append("infinite-scores")
+    if nulls:
+        classes.append("columns-with-missing-values")
     return {"nontrivial": nontrivial, "classes": classes, "counters": {"rows_merged": n}}
